@@ -3,12 +3,16 @@
 # Injects the test file into the package of /repo's working tree through a go overlay (nothing is written to /repo),
 # runs it, and turns a failing run into "VIOLATION property=<id> replay=<file> bounded=<name>". The test prints
 # "BOUNDED-CASES: <n> ..." (copied into the evidence) and "BOUNDED-FAIL: ..." lines describing failing cases.
-P=$1; NAME=$2; PKG=$3; TF=$4; RUN=$5; TO=${6:-600s}
+P=$1; NAME=$2; PKG=$3; TF=$4; RUN=$5; TO=${6:-600s}; BLANK=$7
+# optional 7th argument: comma-separated existing test files of the package to leave out of this run (replaced, in the
+# overlay only, by bounded/stubs/<basename of pkg>_empty_test.go) - for packages whose own tests abort at init in this sandbox
 cd /verif || exit 2
 export GOFLAGS=-mod=mod GOPROXY=off GOSUMDB=off GOTOOLCHAIN=local LIBRARY_PATH=/verif/build/stublibs
 mkdir -p out/replay/$P out/bounded
 OV=out/bounded/$P.$NAME.overlay.json
-printf '{"Replace": {"/repo/%s/zz_verif_bounded_%s_test.go": "/verif/bounded/%s"}}\n' "$PKG" "$NAME" "$TF" > $OV
+{ printf '{"Replace": {"/repo/%s/zz_verif_bounded_%s_test.go": "/verif/bounded/%s"' "$PKG" "$NAME" "$TF"
+  for f in $(echo "$BLANK" | tr ',' ' '); do printf ', "/repo/%s/%s": "/verif/bounded/stubs/%s_empty_test.go"' "$PKG" "$f" "$(basename $PKG)"; done
+  printf '}}\n'; } > $OV
 OUT=out/replay/$P/bounded_$NAME.txt
 # classes of this stand-in that are listed as known findings (KNOWN_FINDINGS.txt: obligation=bounded.<name>.<class>)
 export VERIF_KNOWN=$(grep "^finding: property=$P obligation=bounded\.$NAME\." KNOWN_FINDINGS.txt | sed "s/.*obligation=bounded\.$NAME\.\([^ ]*\).*/\1/" | tr "\n" " ")
